@@ -78,12 +78,20 @@ def oracle_c02(c):
         if p not in reported and (algo is None or p in algo):
             pr.append(f"a resolver returned an exception instance at {p}: no error with that path is reported")
     pr += [p for p in orc.check_conforms(c.b.model, c.doc, c.op, c.variables, c.real["data"]) if p.startswith("null at non-null")]
+    # "exactly the nearest nullable enclosing position becomes null and every other part of data is what it would be without
+    # the failure": the data the failure rules prescribe is the execution algorithm's (Impl/Exec.lean run on this request)
+    if c.mod and "fail" not in c.mod and not same(c.mod["data"], c.real["data"]):
+        pr.append("data differs from what the failure rules prescribe (a failing position is not nulled, or a sound one is)")
     # (un-awaited coroutine warnings — the engine creates the coroutines of concurrent siblings before an inline sibling
     #  raises, under parent_concurrently=False — are outside the statement: counted in the evidence, not a problem)
     return pr
 
 def oracle_c03(c):
     pr = orc.check_conforms(c.b.model, c.doc, c.op, c.variables, c.real["data"])
+    # "whatever cannot be made to conform is replaced by null under the C02 rules": a look-alike put in its place ([] for a
+    # non-list, a coerced stand-in for an unserialisable leaf) conforms and is still wrong
+    if c.mod and "fail" not in c.mod and not same(c.mod["data"], c.real["data"]):
+        pr.append("data differs from the algorithm's result: a value that cannot conform was replaced by something other than null (or a conforming one was dropped)")
     try:
         json.dumps(c.real["raw"], allow_nan=False)
     except Exception as e:
